@@ -11,6 +11,8 @@ use std::path::{Path, PathBuf};
 pub const C1: &str = include_str!("../../corpus/dirwalk/c1.sol");
 pub const C2: &str = include_str!("../../corpus/dirwalk/c2.sol");
 pub const C3: &str = include_str!("../../corpus/dirwalk/c3.sol");
+// a "barrel" file: only a (floating) pragma and imports -- still an eligible file with a finding
+pub const C4: &str = include_str!("../../corpus/dirwalk/c4.sol");
 // witness files on which every detector fires (SafeMath below / above 0.8.0, ...): used for directed sibling pairs
 pub const W_OLD: &str = include_str!("../../corpus/witness/Old.sol");
 pub const W_NEW: &str = include_str!("../../corpus/witness/New.sol");
@@ -258,6 +260,7 @@ fn base_contents() -> BTreeMap<String, String> {
     m.insert("c1".to_string(), C1.to_string());
     m.insert("c2".to_string(), C2.to_string());
     m.insert("c3".to_string(), C3.to_string());
+    m.insert("c4".to_string(), C4.to_string());
     m
 }
 
@@ -384,7 +387,7 @@ pub fn random(corpus_dir: &str, scratch: &str, count: usize, c16: bool, trace: &
     // position in the listing or on the co-selected patterns (C15 iii; also an instance of the union, C03)
     for cat in cats {
         let (pats, ids, res) = &usable[cat];
-        let wit: Vec<&str> = ["w_old", "w_new", "c1", "c2", "c3"].into_iter().filter(|w| ids.iter().any(|i| i == w)).collect();
+        let wit: Vec<&str> = ["w_old", "w_new", "c1", "c2", "c3", "c4"].into_iter().filter(|w| ids.iter().any(|i| i == w)).collect();
         for x in wit.iter() {
             for y in wit.iter() {
                 if x == y {
